@@ -13,6 +13,7 @@ import (
 	"strings"
 	"time"
 
+	"github.com/practable/relay/internal/file"
 	"github.com/practable/relay/verifharness/lib"
 )
 
@@ -180,7 +181,7 @@ func oracleLine(line string, obs Item, printed *Item, idx int, replay *Case, res
 		res.Count("kind-ok")
 	} else {
 		res.Violate(lib.Violation{Clause: "exactly-one-item", Case: idx, Key: "exactly-one-item:" + obs.K,
-			Detail: fmt.Sprintf("ParseLine(%q) returned %s", line, obs.K), Replay: replay})
+			Detail: fmt.Sprintf("ParseLine(%q) returned %s", clip(line), obs.K), Replay: replay})
 		return
 	}
 	if strings.ContainsAny(line, "\n") {
@@ -191,42 +192,117 @@ func oracleLine(line string, obs Item, printed *Item, idx int, replay *Case, res
 	res.Count("spec:" + class + ":" + want.K)
 	if want != obs {
 		res.Violate(lib.Violation{Clause: class, Case: idx, Key: class + ":" + family(line, want, obs),
-			Detail: fmt.Sprintf("line %q: the documented grammar reads it as %+v, ParseLine returned %+v", line, want, obs),
+			Detail: fmt.Sprintf("line %q: the documented grammar reads it as %v, ParseLine returned %v", clip(line), want, obs),
 			Replay: replay})
 		return
 	}
 	// printing an item and parsing it back gives the item
 	if printed != nil && *printed != obs {
 		res.Violate(lib.Violation{Clause: "round-trip", Case: idx, Key: "round-trip:" + family(line, *printed, obs),
-			Detail: fmt.Sprintf("line %q was printed from %+v, ParseLine returned %+v", line, *printed, obs),
+			Detail: fmt.Sprintf("line %q was printed from %v, ParseLine returned %v", clip(line), *printed, obs),
 			Replay: replay})
 	}
 }
 
-func oracleFile(c *Case, idx int, res *lib.Result) {
-	if len(c.ObsL) != len(c.Lines) {
-		res.Violate(lib.Violation{Clause: "exactly-one-item", Case: idx, Key: "exactly-one-item:file-length",
-			Detail: fmt.Sprintf("%d lines gave %d items", len(c.Lines), len(c.ObsL)), Replay: c})
-		return
-	}
-	bad := 0
-	for i, l := range c.Lines {
-		oracleLine(l, c.ObsL[i], nil, idx, c, res)
-		if w, _ := specLine(l); w.K == "error" {
-			bad++
+// oracleText: "every line of a play file parses ... to exactly one of ..., and checking reports an
+// error precisely when some line is malformed": one item per physical line (LF or CRLF ended, or
+// the unterminated last one), equal to ParseLine of that line, in order; Check counts exactly the
+// malformed lines and each of its texts names its line.  A raw line of 64 KiB or more is the one
+// thing the loader refuses (recorded behaviour of bufio.Scanner in ParseByLine): the lines before
+// it are delivered and LoadFile returns an error.
+func oracleText(c *Case, errs []string, note string, idx int, res *lib.Result) {
+	text := textOf(c.Text)
+	raw := physLines(text)
+	n, wantLong := len(raw), false
+	for i, l := range raw {
+		if len(l) >= 65536 {
+			n, wantLong = i, true
+			break
 		}
 	}
-	if c.Failed != (bad > 0) || c.NErr != bad {
-		res.Violate(lib.Violation{Clause: "check-iff-malformed", Case: idx, Key: "check-iff-malformed:file",
-			Detail: fmt.Sprintf("%d malformed lines per the grammar; Check reported %d errors, err!=nil is %v", bad, c.NErr, c.Failed),
-			Replay: c})
+	res.Count("text")
+	res.CountN("text:physical-lines", len(raw))
+	if wantLong {
+		res.Count("text:with-a-line-of-64KiB-or-more")
+	}
+	if text != "" && !strings.HasSuffix(text, "\n") {
+		res.Count("text:unterminated-last-line")
+	}
+	if strings.Contains(text, "\r\n") {
+		res.Count("text:with-CRLF")
+	}
+	if strings.Contains(text, "\n\n") || strings.HasPrefix(text, "\n") {
+		res.Count("text:with-empty-lines")
+	}
+	viol := func(clause, fam, detail string) {
+		res.Violate(lib.Violation{Clause: clause, Case: idx, Key: clause + ":" + fam, Detail: detail, Replay: c})
+	}
+	if note != "" {
+		viol("one-item-per-line", "load-paths-disagree", note)
+	}
+	if c.TooLong != wantLong {
+		viol("one-item-per-line", "load-error", fmt.Sprintf("LoadFile error is %v; a raw line of 64 KiB or more present: %v", c.TooLong, wantLong))
+		return
+	}
+	if len(c.ObsL) != n {
+		fam, extra := "item-count", ""
+		if len(c.ObsL) == n-1 && !wantLong && !strings.HasSuffix(text, "\n") {
+			fam, extra = "unterminated-last-line-dropped", fmt.Sprintf(" (the file ends without a newline; its last line is %q)", clip(dropCR(raw[n-1])))
+		}
+		viol("one-item-per-line", fam, fmt.Sprintf("%d physical lines to parse, %d items delivered%s", n, len(c.ObsL), extra))
+		return
+	}
+	var bad []int
+	for i := 0; i < n; i++ {
+		line := dropCR(raw[i])
+		if real := project(file.ParseLine(line)); real != c.ObsL[i] {
+			viol("one-item-per-line", "item-differs-from-ParseLine", fmt.Sprintf("physical line %d %q: the file gave %v, ParseLine gives %v", i+1, clip(line), c.ObsL[i], real))
+			continue
+		}
+		oracleLine(line, c.ObsL[i], nil, idx, c, res)
+		if w, _ := specLine(line); w.K == "error" && !strings.Contains(line, "\n") {
+			bad = append(bad, i)
+		}
+	}
+	if c.Failed != (len(bad) > 0) || c.NErr != len(bad) {
+		viol("check-iff-malformed", "file", fmt.Sprintf("%d malformed lines per the grammar %v; Check reported %d errors, err!=nil is %v", len(bad), bad, c.NErr, c.Failed))
+		return
+	}
+	if c.Failed {
+		res.Count("text:check-failed")
+	} else {
+		res.Count("text:check-clean")
+	}
+	for k, e := range errs {
+		line := dropCR(raw[bad[k]])
+		t := strings.TrimLeft(line, blanks)
+		verb := ""
+		if strings.HasPrefix(t, "|") {
+			verb = run(strings.TrimLeft(t[1:], blanks), func(b byte) bool {
+				return b == '-' || b == '+' || b >= 'a' && b <= 'z' || b >= 'A' && b <= 'Z'
+			})
+		}
+		if !strings.Contains(e, line) && (verb == "" || !strings.Contains(e, verb)) {
+			viol("check-iff-malformed", "error-does-not-name-its-line", fmt.Sprintf("error %d of Check is %q; the malformed line %d is %q", k, clip(e), bad[k]+1, clip(line)))
+		}
 	}
 }
 
 // oracleFilter: "a received line is logged iff no filter is set, or it matches no deny pattern and
 // at least one accept pattern, for every sequence of accept, deny and reset commands".
+func without(rs []*regexp.Regexp, src string) []*regexp.Regexp {
+	var out []*regexp.Regexp
+	for _, r := range rs {
+		if r.String() != src {
+			out = append(out, r)
+		}
+	}
+	return out
+}
+
+// Every pattern is compiled and matched ON ITS OWN; a pattern named several times counts once
+// more, which changes nothing; a delete takes back every naming of that pattern text.
 func oracleFilter(c *Case, direct []string, idx int, res *lib.Result) {
-	var acc, den []*regexp.Regexp
 	any := func(rs []*regexp.Regexp, l string) bool {
 		for _, r := range rs {
 			if r.MatchString(l) {
@@ -235,42 +311,51 @@ func oracleFilter(c *Case, direct []string, idx int, res *lib.Result) {
 		}
 		return false
 	}
-	var want []string
-	sinceReset := false
-	for _, e := range c.Evs {
-		switch e.A {
-		case "accept":
-			acc = append(acc, regexp.MustCompile(e.S))
-		case "deny":
-			den = append(den, regexp.MustCompile(e.S))
-		case "reset":
-			acc, den = nil, nil
-			sinceReset = true
-		case "":
-			if (len(acc) == 0 && len(den) == 0) || (!any(den, e.S) && any(acc, e.S)) {
-				want = append(want, e.S)
+	srcs := func(rs []*regexp.Regexp) []string {
+		out := []string{}
+		for _, r := range rs {
+			out = append(out, r.String())
+		}
+		return out
+	}
+	cmp := func(got []string, who string) {
+		var acc, den []*regexp.Regexp
+		ptr := 0
+		for k, e := range c.Evs {
+			switch e.A {
+			case "accept":
+				acc = append(acc, regexp.MustCompile(e.S))
+			case "deny":
+				den = append(den, regexp.MustCompile(e.S))
+			case "reset":
+				acc, den = nil, nil
+			case "del-accept":
+				acc = without(acc, e.S)
+			case "del-deny":
+				den = without(den, e.S)
+			case "":
+				want := (len(acc) == 0 && len(den) == 0) || (!any(den, e.S) && any(acc, e.S))
+				obs := ptr < len(got) && got[ptr] == e.S
+				if obs {
+					ptr++
+				}
+				if obs == want {
+					continue
+				}
+				clause := "filter-blocked-a-permitted-line"
+				if obs {
+					clause = "filter-logged-a-forbidden-line"
+				}
+				res.Violate(lib.Violation{Clause: clause, Case: idx, Key: clause + ":" + who, Replay: c,
+					Detail: fmt.Sprintf("%s, event %d: line %q with accept patterns %q and deny patterns %q in force: logged=%v, the rule says %v",
+						who, k, e.S, srcs(acc), srcs(den), obs, want)})
+				return
 			}
 		}
-	}
-	_ = sinceReset
-	cmp := func(got []string, who string) {
-		i := 0
-		for i < len(got) && i < len(want) && got[i] == want[i] {
-			i++
+		if ptr != len(got) {
+			res.Violate(lib.Violation{Clause: "filter-passes-exactly", Case: idx, Key: "filter-passes-exactly:" + who, Replay: c,
+				Detail: fmt.Sprintf("%s logged %d lines, of which only the first %d are received lines in order; next is %q", who, len(got), ptr, got[ptr])})
 		}
-		if i == len(got) && i == len(want) {
-			return
-		}
-		clause, detail := "filter-passes-exactly", ""
-		switch {
-		case i == len(got):
-			clause, detail = "filter-blocked-a-permitted-line", fmt.Sprintf("%q should have been logged (position %d of the output)", want[i], i)
-		case i == len(want):
-			clause, detail = "filter-logged-a-forbidden-line", fmt.Sprintf("%q was logged beyond what the rule allows", got[i])
-		default:
-			detail = fmt.Sprintf("output position %d: logged %q, the rule gives %q next", i, got[i], want[i])
-		}
-		res.Violate(lib.Violation{Clause: clause, Case: idx, Key: clause + ":" + who, Detail: who + ": " + detail, Replay: c})
 	}
 	cmp(c.Out, "FilterLines")
 	cmp(direct, "Filter.Pass")
